@@ -157,9 +157,9 @@ theorem annotationName_agree : Gen.IntroStd.annotationNameGen = Gen.IntroStd.ann
 /-- what `start_property` + `start_annotation` rebuild from the attributes `_getXml` wrote for `p` -/
 def recProperty (p : Property) : Property :=
   ⟨p.name, p.sig,
-   accessOf (lower p.access = kRead || lower p.access = kReadWrite)
-            (lower p.access = kWrite || lower p.access = kReadWrite),
-   .bool (p.emits.fmt = kTrue || p.emits.fmt = kInvalidates)⟩
+   accessOf (Gen.IntroStd.readableWords.contains (lower p.access))
+            (Gen.IntroStd.writeableWords.contains (lower p.access)),
+   .bool (Gen.IntroStd.emitsTrueWords.contains p.emits.fmt)⟩
 
 def Interface.withProperty (i : Interface) (p : Property) : Interface :=
   { i with properties := dset Property.name i.properties p }
